@@ -53,12 +53,17 @@ TIterO         == TPath(TId, << PIterO >>)                    \* .[]?
 TAt(i)         == TPath(TId, << PIdx(i) >>)                   \* .[i]
 
 Natives == <<
-  NatB("empty", 0), NatB("error", 0), NatB("error", 1),
+  NatB("empty", 0), NatB("error", 0), NatB("error", 1), NatB("!ierr", 0),
   NatB("true", 0), NatB("false", 0), NatB("null", 0), NatB("not", 0),
   NatB("first", 1), NatB("last", 1), NatB("limit", 2), NatB("skip", 2),
   NatB("range", 3), NatB("path", 1), NatB("path_value", 1), NatB("getpath", 1),
   NatB("keys_unsorted", 0), NatB("key_values", 0), NatB("length", 0), NatB("has", 1),
   NatB("tojson", 0), NatB("tostring", 0), NatB("@text", 0), NatB("@json", 0),
+  NatB("sort_by", 1), NatB("group_by", 1), NatB("unique_by", 1), NatB("min_by", 1), NatB("max_by", 1),
+  NatB("contains", 1), NatB("indices", 1), NatB("bsearch", 1), NatB("transpose", 0),
+  NatB("startswith", 1), NatB("endswith", 1), NatB("ltrimstr", 1), NatB("rtrimstr", 1),
+  NatB("explode", 0), NatB("implode", 0), NatB("ascii_downcase", 0), NatB("ascii_upcase", 0), NatB("utf8bytelength", 0),
+  NatB("floor", 0), NatB("round", 0), NatB("ceil", 0),
   NatB("first", 0), NatB("last", 0), NatB("sort", 0), NatB("reverse", 0), NatB("tobytes", 0), NatB("isempty", 1)
 >>
 
@@ -152,6 +157,35 @@ Defs == <<
        TIf(TC0("isarray"), TStr(Ascii("array")), TStr(Ascii("object")))))))),
   \* abs: the absolute value
   TDef("abs", <<>>, TIf(TBin("<", TId, TNum(0)), TNeg(TId), TId)),
+  \* unique == unique_by(.), min == min_by(.), max == max_by(.)
+  TDef("unique", <<>>, TC1("unique_by", TId)),
+  TDef("min", <<>>, TC1("min_by", TId)),
+  TDef("max", <<>>, TC1("max_by", TId)),
+  \* index($x) == indices($x) | first;  rindex likewise with last  (.[0] / .[-1]: null when there is none)
+  TDef("index", << PVv("x") >>, TPipe(TC1("indices", TVar("x")), TAt(TNum(0)))),
+  TDef("rindex", << PVv("x") >>, TPipe(TC1("indices", TVar("x")), TAt(TNeg(TNum(1))))),
+  \* inside($x) == . as $i | $x | contains($i)
+  TDef("inside", << PF("xs") >>, TAs(TId, "i", TPipe(TC0("xs"), TC1("contains", TVar("i"))))),
+  \* flatten (manual's definition via flattens)
+  TDef("flattens", <<>>, TIf(TC0("isarray"), TPipe(TIter, TC0("flattens")), TId)),
+  TDef("flattens", << PVv("d") >>,
+       TIf(TBin("and", TC0("isarray"), TBin(">=", TVar("d"), TNum(0))), TPipe(TIter, TC1("flattens", TBin("-", TVar("d"), TNum(1)))), TId)),
+  TDef("flatten", <<>>, TArr(TC0("flattens"))),
+  TDef("flatten", << PVv("d") >>, TArr(TC1("flattens", TVar("d")))),
+  \* combinations == .[][] |= [.] | reduce .[] as $a ([]; . + $a[])
+  TDef("combinations", <<>>,
+       TPipe(TBin("|=", TPath(TId, << PIter, PIter >>), TArr(TId)),
+             TReduce(TIter, "a", TArr0, TBin("+", TId, TPath(TVar("a"), << PIter >>))))),
+  TDef("combinations", << PVv("n") >>, TPipe(TArr(TC2("limit", TVar("n"), TC1("repeat", TId))), TC0("combinations"))),
+  \* split($s) == . / $s if both are strings, else it fails
+  TDef("split", << PVv("s") >>,
+       TIf(TBin("and", TC0("isstring"), TPipe(TVar("s"), TC0("isstring"))), TBin("/", TId, TVar("s")), TC0("!ierr"))),
+  \* join($s): "" if empty, otherwise "\(x1)" + $s + ... + $s + "\(xn)"
+  TDef("join", << PVv("s") >>,
+       TIf(TBin("==", TId, TArr0), TStr(<<>>),
+           TReduce(TPath(TId, << PFrom(TNum(1)) , PIter >>), "x", TPipe(TAt(TNum(0)), TC0("tostring")),
+                   TBin("+", TBin("+", TId, TVar("s")), TPipe(TVar("x"), TC0("tostring")))))),
+  \* pick(f): manual "pick(f, g) == pick(f) * pick(g)"; defined by the paths of f
   \* in($x) / inside are flipped has / contains
   TDef("in", << PF("xs") >>, TAs(TId, "x", TPipe(TC0("xs"), TC1("has", TVar("x")))))
 >>
